@@ -187,3 +187,11 @@ Theorem C09_conv_rs_matches_model dbg w lg : 0 <= lg -> w = 2 ^ lg ->
     match Cast.I_as_int dbg pb ps w ds with Ret r => Done r | Panic => Panicked end.
 Proof. exact (conv_C09_match_model dbg w lg). Qed.
 Print Assumptions C09_conv_rs_matches_model.
+(* primitive -> BInt: as_bint! of /repo/src/bint/cast.rs (`impl CastFrom<$ty> for $BInt<N>`, $ty a primitive integer; the two further
+   instantiations at bool / char are not covered) is Self::from_bits($BUint::cast_from(from)) = the model's I_from_int; `$BUint::cast_from`
+   is the model's U_from_int, whose own tie is C09_loops_rs_match_model above (as_buint!). *)
+Theorem C09_conv_from_rs_matches_model w n pb from fuel :
+  ConvGen.bint_from_prim w (Z.of_nat n) fuel pb from =
+  match Cast.I_from_int pb w n from with Ret r => Done r | Panic => Panicked end.
+Proof. exact (conv_bint_from_prim w n pb from fuel). Qed.
+Print Assumptions C09_conv_from_rs_matches_model.
